@@ -150,14 +150,19 @@ def execute(case):
     execs = 0
     types = pipeline.ALL_TYPES if case["leaf"].startswith("Iso") else pipeline.DEFAULT_TYPES
     seen = set()
+    import copy
+    pristine = copy.deepcopy(samples)
     for fw in ("attrs", "dataclasses"):
         for conv in (True, False):
-            for meta in (False, True):
+            for meta in (False, True, "slots"):
                 shape = ["p:" + (case["path"][:i] or "-") for i in range(0 if not case["path"] else 1, len(case["path"]) + 1)] \
                     + ["leaf:" + case["leaf"]]
                 site = f"{fw}:{'conv' if conv else 'noconv'}"
                 kw = {"post_init_converters": conv}
-                if meta:
+                if meta == "slots":
+                    # decorator kwargs are an option of both generators: slotted classes have no __dict__
+                    kw["attrs_kwargs" if fw == "attrs" else "dataclass_kwargs"] = {"slots": True}
+                elif meta:
                     kw["meta"] = True
 
                 def V(clause, detail):
@@ -186,12 +191,18 @@ def execute(case):
                                 continue
                             attr[key] = others[0]
                         for i, s0 in enumerate(samples):
-                            s = {attr[k]: v for k, v in s0.items()}
+                            s = {attr[k]: v for k, v in s0.items()}     # the very same value objects for every construction
                             try:
                                 inst = Root(**s)
                             except Exception as e:
                                 V("construction_raises", f"sample#{i} {s!r}: {type(e).__name__}: {e} || {text[-260:]}")
+                                samples[i] = copy.deepcopy(pristine[i])
                                 continue
+                            if s0 != pristine[i] or repr(s0) != repr(pristine[i]):
+                                V("construction_mutates_the_sample", f"sample#{i}: {pristine[i]!r} became {s0!r}")
+                                samples[i] = copy.deepcopy(pristine[i])
+                            s = {attr[k]: v for k, v in pristine[i].items()}
+
                             for name, orig in s.items():
                                 got = getattr(inst, name)
                                 h = hints[name]
